@@ -1,6 +1,9 @@
 package raft
 
-import "time"
+import (
+	"bytes"
+	"time"
+)
 
 // C11: when a non-voter is promoted.
 
@@ -115,5 +118,30 @@ func VH_C11_demote_then_promote() {
 		vReach("waiting")
 		vAssert(st.round != nil && !st.round.finished() && st.round.LastIndex > behind, "P-fresh-round-targets-what-the-leader-holds-now")
 	}
+	vReach("end")
+}
+
+//verif:check C11,C17 stubs=env,valuefile,abslog reach=adopted-without-self,end desc="a node that is being added to the cluster (empty log, no configuration yet) and receives the beginning of the leader's log - whose configuration entries so far do not mention it, because the entry that adds it lies further on than one request carries - does not take the commit of such a configuration for its own removal: it keeps running; only a node that was a member before shuts itself down when a configuration without it commits" bounds="joining node 4; first request: bootstrap configuration of nodes 1..3 + one update; any leader commit index; ShutdownOnRemove on"
+func VH_C11_joining_node_keeps_running() {
+	r := vMkRaft(4)
+	r.shutdownOnRemove = true
+	vDiskInit(".term", 0, 0)
+	l, a := vNewLog(0)
+	r.storage.log = l
+	r.fsm.FSM = &vFSM{}
+	cfgE := vClusterConfig().encode()
+	cfgE.index, cfgE.term = 1, 1
+	e2 := &entry{index: 2, term: 1, typ: entryUpdate, data: vBytes("payload2", 1)}
+	var w bytes.Buffer
+	w.Write(vEncodeEntry(cfgE))
+	w.Write(vEncodeEntry(e2))
+	c, _ := vMkConn(w.Bytes())
+	req := &appendReq{req: req{1, 1}, prevLogIndex: 0, prevLogTerm: 0, ldrCommitIndex: vU64("ldrCommitIndex"), numEntries: 2}
+	res, err := r.onAppendEntriesRequest(req, c)
+	vAssert(res == success && err == nil && a.last() == 2, "J-entries-stored")
+	_, self := r.configs.Latest.Nodes[4]
+	vAssert(!self && r.configs.Latest.Index == 1, "J-adopted-configuration-does-not-mention-the-joining-node-yet")
+	vReach("adopted-without-self")
+	vAssert(!r.isClosed(), "J-joining-node-does-not-shut-itself-down")
 	vReach("end")
 }
